@@ -8,7 +8,11 @@ props = [json.loads(l) for l in open(os.path.join(ROOT, "properties.jsonl"))]
 checks, claimed = [], set()
 engines = {e["name"]: e for e in man["engines"]}
 for e in engines.values(): e["serves_properties"] = []
+# only properties the coordinator has verified (./check <id> quick exits 0 on the unchanged tree) are claimed
+verified = set(open(os.path.join(ROOT, "checks", "CLAIMED")).read().split())
 for f in sorted(os.listdir(os.path.join(ROOT, "checks"))):
+    if not f.endswith(".json") or f[:-5] not in verified:
+        continue
     cfg = json.load(open(os.path.join(ROOT, "checks", f)))
     m = cfg.get("manifest")
     if not m or not cfg.get("claimed", True):
